@@ -65,7 +65,7 @@ else:
     LOAD_SENSITIVE = ("import__execution_error_on_header_4_when_awaits_for_1000000_blocks",
                       "executes_5_tasks_for_5_seconds_with_one_thread", "executes_10_tasks_for_5_seconds_with_one_thread",
                       "tests_preconf_rollback::", "test_gossipped_transaction_with_transient_error_ignored",
-                      "prune_expired_transactions", "insert__tx_depends_one_extracted_and_one_pool_tx")
+                      "prune_expired", "test_prune_transactions_the_oldest", "insert__tx_depends_one_extracted_and_one_pool_tx")
     ex = c.get("existing_tests_with_patch") or {}
     att = ex.get("attempts") or []
     if not att and ex.get("rc", 0) != 0:
